@@ -11,16 +11,26 @@ import (
 const hooksOn = false
 
 type stepState struct {
+	ctx      context.Context
 	steps    int64
 	budget   int64
 	cancel   context.CancelFunc
 	hit      bool
 	maxDepth int
-	onStep   func(n int64)
+	onStep   func(n int64, depth int)
+	counters *proto.Counters
 }
 
-var cur stepState
+var curSt = &stepState{}
+
+func curState() *stepState { return curSt }
+
 var counters *proto.Counters
+
+func beginState(ctx context.Context, budget int64, cancel context.CancelFunc) *stepState {
+	curSt = &stepState{ctx: ctx, budget: budget, cancel: cancel}
+	return curSt
+}
 
 func installHooks()   {}
 func uninstallHooks() {}
